@@ -1051,6 +1051,14 @@ impl HashColumn {
 		tables: TablesRef,
 		tier_count: &mut HashMap<usize, usize>,
 	) -> Result<()> {
+		// The number of children is stored in a single byte.
+		if children.len() > u8::MAX as usize {
+			return Err(Error::InvalidInput(format!(
+				"Tree node has {} children, at most {} can be stored",
+				children.len(),
+				u8::MAX
+			)))
+		}
 		for child in children {
 			match child {
 				NodeRef::New(node) => self.prepare_node(node, tables, tier_count)?,
